@@ -17,6 +17,7 @@ from ast import (
     arguments,
 )
 from collections import OrderedDict
+from copy import deepcopy
 from functools import partial
 from itertools import chain
 from os import path, remove, replace
@@ -94,6 +95,8 @@ def argparse_function(
     :returns:  AST node for function definition which constructs argparse
     :rtype: ```FunctionDef```
     """
+    # The description is shared by the caller (e.g., `sync` hands one to every emitter): never modify it
+    intermediate_repr = deepcopy(intermediate_repr)
     function_name = function_name or intermediate_repr["name"]
     function_type = function_type or intermediate_repr["type"]
     internal_body = get_internal_body(
@@ -347,6 +350,8 @@ def class_(
     :returns: Class AST of the docstring
     :rtype: ```ClassDef```
     """
+    # The description is shared by the caller (e.g., `sync` hands one to every emitter): never modify it
+    intermediate_repr = deepcopy(intermediate_repr)
     returns = (
         intermediate_repr["returns"]
         if "return_type" in ((intermediate_repr or {}).get("returns") or iter(()))
@@ -475,6 +480,8 @@ def docstring(
     :returns: docstring
     :rtype: ```str```
     """
+    # The description is shared by the caller: never modify it
+    intermediate_repr = deepcopy(intermediate_repr)
     return "\n{doc}\n\n{nl0}{params}\n{returns}\n{nl1}".format(
         doc=(fill if word_wrap else identity)(intermediate_repr["doc"]),
         nl0="" if docstring_format == "rest" else "\n",
@@ -638,6 +645,8 @@ def function(
     :returns: AST node for function definition
     :rtype: ```FunctionDef```
     """
+    # The description is shared by the caller (e.g., `sync` hands one to every emitter): never modify it
+    intermediate_repr = deepcopy(intermediate_repr)
     params_no_kwargs = tuple(
         filter(
             lambda param: not param[0].endswith("kwargs"),
